@@ -338,6 +338,10 @@ def init_sc3(mode):
             os.path.abspath(SC3_PATH)):
         raise HarnessError(f'sc3 loaded from {sc3.__file__}, not {SC3_PATH}')
     if mode:
+        if mode == 'rt':
+            # many check processes may run side by side: widen the range of
+            # UDP ports the library may bind (default is 10 from 57120)
+            sc3.LIB_PORT_RANGE = 4000
         sc3.init(mode, verbosity='CRITICAL', blocking=True)
         logging.getLogger().setLevel(logging.CRITICAL + 10)
     return sc3
